@@ -715,6 +715,40 @@ def lowerList : List SaExpr → List SaExpr
   | e :: es => lower e :: lowerList es
 end
 
+def isAbsent : SaExpr → Bool
+  | .absent => true
+  | _ => false
+
+/-- a missing `value=` / `else_=` (Python `None`) -/
+def optG (e : SaExpr) (g : G) : Option G :=
+  match e with
+  | .absent => none
+  | _ => some g
+
+/-- `visit_case`: `CASE [value] WHEN c THEN r … [ELSE e] END` from the rendered parts -/
+def caseBody (v : Option G) (ws : List G) : Option (Bracket × G) :=
+  match v, ws with
+  | none, c :: r :: rest => some (.caseSearched, whenChain (G.inf .then_ " THEN " c r) rest)
+  | none, _ => none
+  | some vg, _ => some (.caseSimple, whenChain vg ws)
+
+def caseEnd (k : Bracket) (b : G) (e : Option G) : G :=
+  match e with
+  | none => G.br k b
+  | some eg => G.br k (G.inf .else_ " ELSE " b eg)
+
+def caseG (v : Option G) (ws : List G) (e : Option G) : G :=
+  match caseBody v ws with
+  | none => opaqueG "CASE END"
+  | some (k, b) => caseEnd k b e
+
+/-- `visit_cast`: `CAST(x AS T)`; MySQL skips the CAST for types it cannot cast to and renders
+    `process(cast.clause.self_group())` -/
+def castG (name : Option String) (grouped : Bool) (x : G) : G :=
+  match name with
+  | some n => G.br .cast (G.inf .as_ " AS " x (opaqueG n))
+  | none => if grouped then G.br .paren x else x
+
 /-- `visit_like_op_binary` & co.: `l LIKE r [ESCAPE 'c']` -/
 def likeG (d : Dialect) (s : Sym) (t : String) (l r : G) (esc : Option String) : G :=
   match esc with
@@ -806,24 +840,8 @@ def render (d : Dialect) (lb : Bool) : SaExpr → G
         (if op = .is_true then G.atom ⟨"1", .int 1⟩ else G.atom ⟨"0", .int 0⟩)
   | .grouping e => G.br .paren (render d lb e)
   | .case_ v whens e _ =>
-    let ws := renderList d lb whens
-    let body :=
-      match v, ws with
-      | .absent, c :: r :: rest => some (.caseSearched, whenChain (G.inf .then_ " THEN " c r) rest)
-      | .absent, _ => none
-      | v', _ => some (.caseSimple, whenChain (render d lb v') ws)
-    match body with
-    | none => opaqueG "CASE END"
-    | some (k, b) =>
-      match e with
-      | .absent => G.br k b
-      | e' => G.br k (G.inf .else_ " ELSE " b (render d lb e'))
-  | .cast e ty =>
-    match castName d ty with
-    | some n => G.br .cast (G.inf .as_ " AS " (render d lb e) (opaqueG n))
-    | none =>
-      -- MySQL `visit_cast` for an uncastable type: `process(cast.clause.self_group())`
-      if wouldGroup none e then G.br .paren (render d lb e) else render d lb e
+    caseG (optG v (render d lb v)) (renderList d lb whens) (optG e (render d lb e))
+  | .cast e ty => castG (castName d ty) (wouldGroup none e) (render d lb e)
   | .func name args _ => G.br (.fn name) (chain .comma ", " (renderList d lb args))
   | .subq n _ => G.atom ⟨"(SELECT " ++ n ++ ")", .col n⟩
   | .inlist vs _ _ => G.br .paren (litListG d lb vs)
